@@ -183,3 +183,56 @@ Proof. exact forward_device_data_spec. Qed.
 
 Theorem c09_window_constants : MAX_INFLIGHT = 100 /\ MAX_PKID = 100.
 Proof. exact (conj MAX_INFLIGHT_100 MAX_PKID_100). Qed.
+
+(** ---- resumption needs no further stimulus (Router/WakeCor.v) ---------------------------------
+    [ahead id q] (Router/IsolationReady.v) = the entries of the ready queue in front of the
+    first occurrence of [id].  A connection that is Ready and queued is at the head of the queue
+    after exactly |ahead| further [consume] calls (fewer than the queue is long; nobody overtakes:
+    [c14_ready_progress]) — whatever else is queued, with no packet, ack or Ready from anybody in
+    between — its tracker untouched, and that [consume] takes ALL its data requests into the
+    sweep loop.  [c09_resume_no_stimulus]: this is the situation after the DeviceData event that
+    processes an in-order PUBACK / PUBREC for a connection that was Paused InflightFull. *)
+From Rumqtt Require Import Router.Inv Router.IsolationReady Router.WakeCor.
+From Rumqtt Require Import Router.Model Router.RunDefs.
+
+Theorem c09_served_after_ahead : forall (ops : list (list oracle * rop)) (st : rstate) (id : N) (t : tracker) (st2 : rstate),
+  RInv st -> slab_get (r_trackers st) id = Some t -> In id (r_ready st) ->
+  Forall (fun x : list oracle * rop => snd x = OpConsume) ops ->
+  length ops = length (ahead id (r_ready st)) ->
+  run st ops = Ok st2 ->
+  exists (rest : list N) (o : outgoing),
+    r_ready st2 = id :: rest /\ slab_get (r_trackers st2) id = Some t /\ slab_get (r_obufs st2) id = Some o /\
+    consume st2 =
+      (let s2 := set_r_ready (put_tracker (set_r_ready st2 rest) id (set_tr_reqs t [])) (rest ++ [id]) in
+       do s3 <- ack_device_data s2 id o;
+       do _ <- (match slab_get (r_conns s3) id with Some _ => Ok tt | None => Panic P_OBUF_INDEX end);
+       do s4 <- consume_loop (N.to_nat MAX_SCHEDULE_ITERATIONS) s3 id (tr_reqs t) [];
+       Ok (s4, true)).
+Proof. exact served_after_ahead. Qed.
+
+Theorem c09_resume_no_stimulus : forall (st : rstate) (id : N) (inc : incoming) (b : linkbuf) (s : rstate) (fls : flags)
+    (p : packet) (pkid : N) (o : outgoing) (h : N * N * option cursor) (r : list (N * N * option cursor))
+    (t : tracker) (st' : rstate),
+  slab_get (r_ibufs st) id = Some inc -> nthN (r_links st) (i_link inc) = Some b ->
+  processed id (i_client inc) (link_put st (i_link inc) (set_lk_in b [])) flags0 (lk_in b) s fls p ->
+  p = PPubAck pkid \/ p = PPubRec pkid ->
+  slab_get (r_obufs s) id = Some o -> o_inflight o = h :: r -> pkid = pkid_of h ->
+  slab_get (r_trackers s) id = Some t ->
+  tr_status t = Paused InflightFull \/ tr_status t = Paused Caughtup \/ (tr_status t = Ready /\ In id (r_ready s)) ->
+  handle_device_payload st id = Ok st' -> slab_get (r_obufs st') id <> None ->
+  RInv st' ->
+  exists t' : tracker, slab_get (r_trackers st') id = Some t' /\ tr_status t' = Ready /\ In id (r_ready st') /\
+    (length (ahead id (r_ready st')) < length (r_ready st'))%nat /\
+    forall (ops : list (list oracle * rop)) (st2 : rstate),
+      Forall (fun x : list oracle * rop => snd x = OpConsume) ops ->
+      length ops = length (ahead id (r_ready st')) ->
+      run st' ops = Ok st2 ->
+      exists (rest : list N) (o2 : outgoing),
+        r_ready st2 = id :: rest /\ slab_get (r_trackers st2) id = Some t' /\ slab_get (r_obufs st2) id = Some o2 /\
+        consume st2 =
+          (let s2 := set_r_ready (put_tracker (set_r_ready st2 rest) id (set_tr_reqs t' [])) (rest ++ [id]) in
+           do s3 <- ack_device_data s2 id o2;
+           do _ <- (match slab_get (r_conns s3) id with Some _ => Ok tt | None => Panic P_OBUF_INDEX end);
+           do s4 <- consume_loop (N.to_nat MAX_SCHEDULE_ITERATIONS) s3 id (tr_reqs t') [];
+           Ok (s4, true)).
+Proof. exact resume_no_stimulus. Qed.
